@@ -4,7 +4,6 @@ import (
 	"bytes"
 	"errors"
 	"fmt"
-	"math"
 
 	"github.com/Eyevinn/mp4ff/bits"
 )
@@ -357,13 +356,19 @@ func ParseSliceHeader(nalu []byte, spsMap map[uint32]*SPS, ppsMap map[uint32]*PP
 	if pps.NumSliceGroupsMinus1 > 0 &&
 		pps.SliceGroupMapType >= 3 &&
 		pps.SliceGroupMapType <= 5 {
-		picSizeInMapUnits := pps.PicSizeInMapUnitsMinus1 + 1
+		// slice_group_change_cycle has Ceil(Log2(PicSizeInMapUnits ÷ SliceGroupChangeRate + 1)) bits (7.4.3),
+		// ÷ without rounding. PicSizeInMapUnits comes from the SPS: pic_size_in_map_units_minus1 of the PPS
+		// is only coded for slice_group_map_type 6.
+		picSizeInMapUnits := sps.picSizeInMapUnits()
 		sliceGroupChangeRate := pps.SliceGroupChangeRateMinus1 + 1
 		if sliceGroupChangeRate == 0 { // minus1 value of all ones: would divide by zero below
 			return nil, fmt.Errorf("invalid slice_group_change_rate_minus1 in PPS %d", sh.PicParamID)
 		}
-		nrBits := int(math.Ceil(math.Log2(float64(picSizeInMapUnits/sliceGroupChangeRate + 1))))
-		sh.SliceGroupChangeCycle = uint32(r.Read(nrBits))
+		quot := picSizeInMapUnits / sliceGroupChangeRate
+		if picSizeInMapUnits%sliceGroupChangeRate != 0 {
+			quot++
+		}
+		sh.SliceGroupChangeCycle = uint32(r.Read(bits.CeilLog2(quot + 1)))
 	}
 
 	// compute the size in bytes. The last byte may not be fully parsed
